@@ -157,3 +157,9 @@ func bystanderFamily(tier string) *FamilySpec {
 	fs := HandFamily("BYSTANDER", "bystander.go.txt")
 	return fs
 }
+
+// bystander2Family: a processed file with a named API import that declares its own Iter / Seq /
+// Start / Bind (a package of its own: a dot-import elsewhere in the package would clash).
+func bystander2Family(tier string) *FamilySpec {
+	return HandFamily("BYSTANDER2", "bystander2.go.txt")
+}
